@@ -309,6 +309,7 @@ check_C07 = make_result_check("C07", {"cx"})
 def check_C05(rep, tier, seed):
     coq_part(rep, "C05")
     res = k3_part(rep, tier, seed)
+    k7_part(rep, "C05", tier, seed)
     indirect = k3_select(res, ["calls", "clog"])
     report_k3(rep, "C05", res, [], indirect, ["C05"])
     _, d4, i4 = k4_part(rep, tier, seed, ["calls", "seen"])
